@@ -14,7 +14,7 @@
    [p_lv n LExpr pc None ts] = the model of parser.expr() (pc=false) / parser.printExpr() (pc=true)
    with fuel n. *)
 From Verif Require Import Lib.Base Model.ExprAst Model.ExprParser Proofs.ExprParserMono Proofs.ExprParserRel
-  Proofs.PrecSpec Proofs.ExprParserPrinted Proofs.ExprParserMin Proofs.ExprParserPrint Proofs.ExprParserGetline.
+  Proofs.PrecSpec Proofs.ExprParserPrinted Proofs.ExprParserMin Proofs.ExprParserPrint Proofs.ExprParserGetline Gen.ConcatStart Proofs.ExprParserTable.
 
 (* more fuel never changes an answer other than "out of fuel" *)
 Theorem C04_fuel_monotone : forall n m l pc pend ts r,
@@ -100,6 +100,21 @@ Corollary C04_getline_after_concat : forall l r rest,
     = POk (EGetline (Some (par false false 0 (EBinary BConcat l r))) None None, rest).
 Proof. intros l r rest H. apply getline_binds_looser; [exact H | cbn; lia]. Qed.
 Print Assumptions C04_getline_after_concat.
+
+(* table theorems (Gen/ConcatStart.v is regenerated from lexer/token.go and parser.concat() on every
+   check): the model's "starts a concatenation operand" predicate is, on every token, the loop condition
+   of parser.concat() as written (fixed tokens + FIRST_FUNC..LAST_FUNC with its comparison operators);
+   the model's built-in tokens are exactly that range *)
+Theorem C04_concat_start_table :
+  forallb (fun t => opt_bool_eqb (concat_start t) (go_concat_start (tok_name t))) all_toks = true.
+Proof. exact concat_start_is_generated. Qed.
+Print Assumptions C04_concat_start_table.
+
+Theorem C04_func_range_table :
+  take_through last_func (drop_until first_func token_names) = map bfn_name all_bfn /\
+  concat_lo = first_func /\ concat_hi = last_func.
+Proof. split; [exact func_range_is_model | exact concat_bounds_are_func_range]. Qed.
+Print Assumptions C04_func_range_table.
 
 (* ---- non-vacuity ---- *)
 
